@@ -229,7 +229,7 @@ impl<'ast> Visit<'ast> for Collector {
             ]),
             syn::Item::Trait(t) => self.push_item("trait", t.ident.to_string(), &t.attrs, line_of(&t.ident), vec![("supertraits", J::s(toks(&t.supertraits)))]),
             syn::Item::Type(t) => self.push_item("type", t.ident.to_string(), &t.attrs, line_of(&t.ident), vec![("ty", J::s(toks(&t.ty)))]),
-            syn::Item::Const(c) => self.push_item("const", c.ident.to_string(), &c.attrs, line_of(&c.ident), vec![]),
+            syn::Item::Const(c) => self.push_item("const", c.ident.to_string(), &c.attrs, line_of(&c.ident), vec![("ty", J::s(toks(&c.ty))), ("expr", J::s(toks(&c.expr)))]),
             syn::Item::Static(c) => self.push_item("static", c.ident.to_string(), &c.attrs, line_of(&c.ident), vec![("mut", J::Bool(matches!(c.mutability, syn::StaticMutability::Mut(_))))]),
             syn::Item::ExternCrate(c) => self.push_item("extern_crate", c.ident.to_string(), &c.attrs, line_of(&c.ident), vec![]),
             other => self.push_item("other", String::new(), &[], line_of(other), vec![]),
